@@ -63,10 +63,19 @@ def run_case(seed, stage=None, extra=None):
         srcs.append(mk_source(rnd, helper, r + rnd.uniform(-0.5, 0.5), c + rnd.uniform(-0.5, 0.5), scale, k))
     stage = stage or rnd.choice([1, 2, 3])
     kind_pre = extra if extra is not None else None
-    kind = extra if extra is not None else rnd.choice([None, 'edge', 'off', 'nan', 'nopsf', 'edge', 'mixed'])
+    kind = extra if extra is not None else rnd.choice([None, 'edge', 'off', 'nan', 'nopsf', 'edge', 'mixed', 'firstrow', 'nested'])
     if kind == 'edge':       # cut-out truncated at the lower / left / upper image edges
         srcs.append(mk_source(rnd, helper, rnd.uniform(2.0, 5.0), rnd.uniform(2.0, 5.0), scale, 80, size=1.3))
         srcs.append(mk_source(rnd, helper, shape[0] - rnd.uniform(3.0, 6.0), rnd.uniform(40, 50), scale, 81, size=1.2))
+    if kind == 'firstrow':   # peak on the first row / first column of the image (pixel coordinate in [-0.5, 0.5))
+        srcs.append(mk_source(rnd, helper, rnd.uniform(-0.4, 0.4), rnd.uniform(38, 44), scale, 82, size=1.2))
+        srcs.append(mk_source(rnd, helper, rnd.uniform(38, 44), rnd.uniform(-0.4, 0.4), scale, 83, size=1.2))
+    if kind == 'nested':     # a compact source inside the square cut-out of a large elongated neighbour, fitted as separate groups
+        big = mk_source(rnd, helper, 40.0, 40.0, scale, 84, size=4.0)
+        big.b, big.pa = 4 * scale * 3600, 0.0
+        w = int(round(4 * (big.a / 3600 / scale) / 2.3548)) + 1
+        small = mk_source(rnd, helper, 40.0 + 0.35 * w, 40.0 + 0.35 * w, scale, 85, size=1.0)
+        srcs = [big, small]
     img = AeRes.make_model(srcs, shape, helper)
     cat = list(srcs)
     data = img.astype(np.float64)
@@ -92,8 +101,8 @@ def run_case(seed, stage=None, extra=None):
         path = os.path.join(tmp, "im.fits")
         fits.PrimaryHDU(data.astype(np.float32), header=h).writeto(path)
         sf = SourceFinder(log=log)
-        regroup = rnd.random() < 0.5 and kind != 'mixed'
-        if kind != 'mixed':
+        regroup = rnd.random() < 0.5 and kind not in ('mixed', 'nested')
+        if kind not in ('mixed', 'nested'):
             rnd.shuffle(cat)
         try:
             rows = sf.priorized_fit_islands(path, catalogue=cat, rms=0.01, bkg=0.0, cores=1, stage=stage,
@@ -121,6 +130,11 @@ def run_case(seed, stage=None, extra=None):
         dpix = float(np.hypot(px_in[0] - px_out[0], px_in[1] - px_out[1]))
         if not int(r.flags) & flags.PRIORIZED or int(r.flags) & ~ALLFLAGS:
             out.append(("flags_gain_PRIORIZED_and_FIXED2PSF_below_stage_2_nothing_else", "flags=%s" % r.flags))
+        if not np.isfinite(r.peak_flux) or int(r.flags) & flags.NOTFIT:
+            out.append(("component_is_switched_off_exactly_when_its_box_holds_no_data",
+                        "stage %d: a source whose peak lies on a valid pixel came back unfitted (peak %r, flags %s, extra=%s)" % (
+                            stage, r.peak_flux, r.flags, kind)))
+            continue
         if abs(r.peak_flux / s.peak_flux - 1) > 1e-3:
             out.append(("flux_of_noise_free_model_recovered",
                         "stage %d: peak %.5f returned for catalogue peak %.5f (a=%.1f\", cut-out width %d, position moved %.3f pix)" % (
@@ -231,6 +245,19 @@ def crosscheck(p):
                 seen.add(lab)
                 failures.append({"label": lab, "input": {"seed": s0 + i, "stage": 1 + i % 3, **info}, "what": what,
                                  "replay_func": "replay_priorized", "replay_payload": {"cases": [[s0 + i, 1 + i % 3]]}})
+    # every special configuration at least once per run, whatever the random draw above picked
+    for j, kind in enumerate(('firstrow', 'nested', 'edge', 'mixed', 'off', 'nan', 'nopsf')):
+        for stage in ((1, 2, 3) if thorough else (1 + (j + p.get("seed", 0)) % 3,)):
+            evals += 1
+            try:
+                fl, info = run_case(s0 + 500 + j, stage=stage, extra=kind)
+            except Exception as e:
+                fl, info = [("harness_error", repr(e))], {}
+            for lab, what in fl:
+                if lab not in seen:
+                    seen.add(lab)
+                    failures.append({"label": lab, "input": {"seed": s0 + 500 + j, "stage": stage, "extra": kind}, "what": what,
+                                     "replay_func": "replay_priorized", "replay_payload": {"cases": [[s0 + 500 + j, stage, kind]]}})
     for i in range(2):
         evals += 1
         for lab, what in small_source_case(s0 + i):
@@ -269,10 +296,14 @@ def replay_priorized(p):
     cases = p.get("cases") or ([] if explicit else [[i, 1 + i % 3] for i in range(18)])
     small = p.get("small") or ([] if explicit else [0])
     want = p.get("obligation", "")
-    for seed, stage in cases:
-        fl, info = run_case(seed, stage=stage)
+    if not explicit and ('notfit' in want or 'cutout.is_a_copy' in want):
+        cases = [[500 + j, st_, kind] for j, kind in enumerate(('firstrow', 'nested')) for st_ in (1, 2, 3)] + cases
+    for case in cases:
+        seed, stage = case[0], case[1]
+        kind = case[2] if len(case) > 2 else None
+        fl, info = run_case(seed, stage=stage, extra=kind)
         if fl:
-            bad.append({"case": [seed, stage], "what": fl})
+            bad.append({"case": list(case), "what": fl})
             break
     if not bad or 'shape_bounds' in want:
         for sd in small:
